@@ -50,7 +50,9 @@ type envState struct {
 	cwd    string
 	home   string
 	hooks  map[string]value // harness-side callbacks (closures) by name
-	locks  map[string]bool
+	locks   map[string]bool
+	lockFd  map[int]string
+	fdPaths map[int]string
 	// cells for std globals
 	stdoutCell, stderrCell, stdinCell *value
 	globals                           map[string]*value
@@ -58,7 +60,7 @@ type envState struct {
 
 func newEnvState(c *pathCtx) *envState {
 	e := &envState{c: c, files: map[string]*vnode{}, envv: map[string]string{}, nextFd: 3,
-		cwd: "/work", home: "/home/user", hooks: map[string]value{}, locks: map[string]bool{},
+		cwd: "/work", home: "/home/user", hooks: map[string]value{}, locks: map[string]bool{}, lockFd: map[int]string{}, fdPaths: map[int]string{},
 		globals: map[string]*value{}}
 	mk := func(std int, name string) *value {
 		var cell value = native{&vfile{name: name, std: std, fd: std % 3}}
